@@ -297,6 +297,103 @@ pub proof fn lemma_resolve_prefix(stack: Seq<u16>, indices: Seq<usize>, j: int, 
     }
 }
 
+// ---- termination measure of the listing iterator
+pub open spec fn cost(t: int, i: int) -> nat
+    decreases grank(t), sub_of(t).len() - i
+    when wf_tables() && 0 <= t < n_dt() && 0 <= i
+    via cost_decreases
+{
+    if i >= sub_of(t).len() { 1 }
+    else {
+        match sub_of(t)[i] {
+            SubElement::Element(_) => 1 + cost(t, i + 1),
+            SubElement::Group(g) => 1 + cost(g as int, 0) + cost(t, i + 1),
+        }
+    }
+}
+#[via_fn]
+proof fn cost_decreases(t: int, i: int) {
+    if i < sub_of(t).len() {
+        match sub_of(t)[i] {
+            SubElement::Group(g) => {
+                assert(sub_of(t)[i] == t_sub(t_dt(t).sub_elements.0 + i));
+            }
+            _ => {}
+        }
+    }
+}
+pub open spec fn it_measure(stack: Seq<u16>, indices: Seq<usize>) -> nat
+    decreases stack.len()
+{
+    if stack.len() == 0 { 0 }
+    else if stack.len() == 1 { cost(stack[0] as int, indices[0] as int) }
+    else { cost(stack[0] as int, indices[0] + 1) + it_measure(stack.subrange(1, stack.len() as int), indices.subrange(1, indices.len() as int)) }
+}
+
+pub proof fn lemma_measure_push(stack: Seq<u16>, indices: Seq<usize>, g: u16)
+    requires wf_tables(), it_inv(stack, indices), stack.len() > 0,
+        indices[stack.len() - 1] < sub_of(stack[stack.len() - 1] as int).len(),
+        sub_of(stack[stack.len() - 1] as int)[indices[stack.len() - 1] as int] == SubElement::Group(g), g < n_dt(),
+    ensures it_measure(stack.push(g), indices.push(0usize)) + 1 == it_measure(stack, indices)
+    decreases stack.len()
+{
+    let s2 = stack.push(g);
+    let i2 = indices.push(0usize);
+    if stack.len() == 1 {
+        assert(s2.subrange(1, 2) =~= seq![g]);
+        assert(i2.subrange(1, 2) =~= seq![0usize]);
+        assert(it_measure(seq![g], seq![0usize]) == cost(g as int, 0));
+    } else {
+        let sr = stack.subrange(1, stack.len() as int);
+        let ir = indices.subrange(1, indices.len() as int);
+        assert(it_inv(sr, ir)) by {
+            assert forall|k: int| 0 <= k < sr.len() implies #[trigger] sr[k] < n_dt() by { assert(sr[k] == stack[k + 1]); }
+            assert forall|k: int| 0 <= k < sr.len() - 1 implies (#[trigger] ir[k]) < sub_of(sr[k] as int).len() && sub_of(sr[k] as int)[ir[k] as int] == SubElement::Group(sr[k + 1]) by {
+                assert(ir[k] == indices[k + 1]); assert(sr[k] == stack[k + 1]); assert(sr[k + 1] == stack[k + 2]);
+            }
+        }
+        lemma_measure_push(sr, ir, g);
+        assert(s2.subrange(1, s2.len() as int) =~= sr.push(g));
+        assert(i2.subrange(1, i2.len() as int) =~= ir.push(0usize));
+    }
+}
+pub proof fn lemma_measure_pop(stack: Seq<u16>, indices: Seq<usize>)
+    requires wf_tables(), it_inv(stack, indices), stack.len() > 0,
+        indices[stack.len() - 1] >= sub_of(stack[stack.len() - 1] as int).len(),
+    ensures ({
+        let s2 = stack.drop_last();
+        let i1 = indices.drop_last();
+        let i2 = if i1.len() > 0 { i1.update(i1.len() - 1, (i1[i1.len() - 1] + 1) as usize) } else { i1 };
+        it_measure(s2, i2) + 1 == it_measure(stack, indices)
+    })
+    decreases stack.len()
+{
+    let s2 = stack.drop_last();
+    let i1 = indices.drop_last();
+    if stack.len() == 1 {
+    } else {
+        let i2 = i1.update(i1.len() - 1, (i1[i1.len() - 1] + 1) as usize);
+        let sr = stack.subrange(1, stack.len() as int);
+        let ir = indices.subrange(1, indices.len() as int);
+        assert(it_inv(sr, ir)) by {
+            assert forall|k: int| 0 <= k < sr.len() implies #[trigger] sr[k] < n_dt() by { assert(sr[k] == stack[k + 1]); }
+            assert forall|k: int| 0 <= k < sr.len() - 1 implies (#[trigger] ir[k]) < sub_of(sr[k] as int).len() && sub_of(sr[k] as int)[ir[k] as int] == SubElement::Group(sr[k + 1]) by {
+                assert(ir[k] == indices[k + 1]); assert(sr[k] == stack[k + 1]); assert(sr[k + 1] == stack[k + 2]);
+            }
+        }
+        lemma_measure_pop(sr, ir);
+        if stack.len() == 2 {
+            assert(s2.len() == 1 && i2.len() == 1);
+            assert(sr.drop_last().len() == 0);
+        } else {
+            assert(s2.subrange(1, s2.len() as int) =~= sr.drop_last());
+            let ir1 = ir.drop_last();
+            assert(i2.subrange(1, i2.len() as int) =~= ir1.update(ir1.len() - 1, (ir1[ir1.len() - 1] + 1) as usize));
+            assert(i2[0] == indices[0]);
+        }
+    }
+}
+
 // first listed attribute with the given name
 pub fn vx_find_attr(x: &[(AttributeName, u16, bool)], n: AttributeName) -> (r: Option<(usize, &(AttributeName, u16, bool))>)
     ensures match r {
@@ -467,20 +564,21 @@ def fns(sz):
                ensures=['it_inv(r.type_id_stack@, r.indices@)', 'r.type_id_stack@.len() == 1 && r.type_id_stack@[0] == self.typ'],
                proofs=[dict(at='body_start', text='proof { axiom_tables(); }')]),
         FnSpec('next', F, impl=IMPL_SI, ret='r', label='SubelemDefinitionsIter.next', body_sub=R_LOCAL,
-               attrs=['#[verifier::exec_allows_no_decreases_clause]'],
                sig_sub=[(r'Option<Self::Item>', 'Option<(ElementName, ElementType, u32, u32)>')],
                requires=['it_inv(old(self).type_id_stack@, old(self).indices@)'],
                ensures=['it_inv(final(self).type_id_stack@, final(self).indices@)',
                         'final(self).type_id_stack@.len() > 0 ==> old(self).type_id_stack@.len() > 0 && final(self).type_id_stack@[0] == old(self).type_id_stack@[0]',
                         'r matches Some((name, et, mask, named)) ==> old(self).type_id_stack@.len() > 0 && et_ok(et) && et == et_of(et.def) && name == t_el(et.def as int).name '
                         '&& exists|p: Seq<usize>| resolve(old(self).type_id_stack@[0] as int, p) == Some((et.def, mask))'],
+               decreases='it_measure(old(self).type_id_stack@, old(self).indices@)',
                proofs=[dict(at='body_start', text='proof { axiom_tables(); }'),
                        dict(before=r'^\s*Some\(\(name, ElementType::new\(\*idx\), version_mask, is_named\)\)', text='''proof {
     let st = old(self).type_id_stack@; let ix = old(self).indices@;
     lemma_resolve_prefix(st, ix, 0, seq![cur_pos]);
     assert(sub_of(current_type as int)[cur_pos as int] == t_sub(start_idx + cur_pos));
 }'''),
-                       dict(after=r'self\.indices\.push\(0\);', text='proof { assert(sub_of(current_type as int)[cur_pos as int] == t_sub(start_idx + cur_pos)); }')]),
+                       dict(after=r'self\.indices\.push\(0\);', text='proof { assert(sub_of(current_type as int)[cur_pos as int] == t_sub(start_idx + cur_pos)); lemma_measure_push(old(self).type_id_stack@, old(self).indices@, *groupid); }'),
+                       dict(before=r'^\s*self\.next\(\)', nth=1, text='proof { lemma_measure_pop(old(self).type_id_stack@, old(self).indices@); assert(self.type_id_stack@ =~= old(self).type_id_stack@.drop_last()); }')]),
     ]
     return out
 
